@@ -72,7 +72,7 @@ func (in *Interp) bindArgs(args SliceVal) ([]Value, Value) {
 	f := in.F
 	out := make([]Value, args.Len)
 	for i := 0; i < args.Len; i++ {
-		iv, ok := in.load(args.Arr.Elems[args.Off+i]).(IfaceVal)
+		iv, ok := in.sget(args, i).(IfaceVal)
 		if !ok {
 			in.fail("unsupported", "sql arg not interface")
 		}
@@ -556,7 +556,7 @@ func (in *Interp) scanRow(row []Value, dests SliceVal) Value {
 		return in.newError(fmt.Sprintf("sql: expected %d destination arguments in Scan, not %d", len(row), dests.Len))
 	}
 	for i := 0; i < dests.Len; i++ {
-		iv := in.load(dests.Arr.Elems[dests.Off+i]).(IfaceVal)
+		iv := in.sget(dests, i).(IfaceVal)
 		dc, ok := iv.V.(*Cell)
 		if !ok || dc == nil {
 			return in.newError("sql: Scan destination not a pointer")
@@ -588,11 +588,18 @@ func (in *Interp) scanRow(row []Value, dests SliceVal) Value {
 				}
 			}
 			lo, hi, _ := in.intRange(et)
-			inRange := f.And(f.Ge(t, f.BigInt(lo)), f.Le(t, f.BigInt(hi)))
-			if !in.Branch(inRange) {
+			// SQL integers are int64 by construction; only narrower/unsigned targets can fail
+			var conds []*sym.Term
+			if lo.Cmp(int64Min) > 0 {
+				conds = append(conds, f.Ge(t, f.BigInt(lo)))
+			}
+			if hi.Cmp(int64Max) < 0 {
+				conds = append(conds, f.Le(t, f.BigInt(hi)))
+			}
+			inRange := f.And(conds...)
+			if !in.BranchLikely(inRange) {
 				return colErr("converting driver.Value type int64 to a " + et.String() + ": value out of range")
 			}
-			dc.V = f.Bounded(t, nil, nil)
 			dc.V = t
 		case isBoolType(et):
 			if src == nil {
@@ -648,4 +655,93 @@ func (in *Interp) scanRow(row []Value, dests SliceVal) Value {
 		}
 	}
 	return IfaceVal{}
+}
+
+// ---- store snapshots (frame conditions) ----
+
+func (in *Interp) snapshotLayer(q Value) *storeLayer {
+	iv, ok := q.(IfaceVal)
+	var c *Cell
+	if ok {
+		c, _ = iv.V.(*Cell)
+	} else {
+		c, _ = q.(*Cell)
+	}
+	st, tx := in.storeOf(c)
+	return in.layerFor(st, tx).clone()
+}
+
+func (in *Interp) sameLayer(a, b *storeLayer, ignore map[string]bool) *sym.Term {
+	f := in.F
+	env := &sqlEnv{in: in}
+	var cs []*sym.Term
+	for n, ta := range a.tables {
+		if ignore[n] {
+			continue
+		}
+		tb, ok := b.tables[n]
+		if !ok || len(ta.rows) != len(tb.rows) {
+			return f.False
+		}
+		for i, ra := range ta.rows {
+			rb := tb.rows[i]
+			if ra.rowid != rb.rowid || len(ra.vals) != len(rb.vals) {
+				return f.False
+			}
+			for k := range ra.vals {
+				va, vb := ra.vals[k], rb.vals[k]
+				if va == nil || vb == nil {
+					if va != nil || vb != nil {
+						return f.False
+					}
+					continue
+				}
+				sa, aBlob := va.(SliceVal)
+				sb, bBlob := vb.(SliceVal)
+				if aBlob || bBlob {
+					if !aBlob || !bBlob {
+						return f.False
+					}
+					ba, _ := sa.Ext.(*blob)
+					bb, _ := sb.Ext.(*blob)
+					if ba == nil || bb == nil || ba.ser != bb.ser {
+						return f.False
+					}
+					continue
+				}
+				c := env.compare("=", va, vb)
+				cs = append(cs, c.(*sym.Term))
+			}
+		}
+	}
+	for n := range b.tables {
+		if _, ok := a.tables[n]; !ok && !ignore[n] {
+			return f.False
+		}
+	}
+	return f.And(cs...)
+}
+
+func registerSnapshots(ex *Explorer) {
+	I := ex.intercepts
+	I[vrtPath+".NewDBNoCheck"] = func(in *Interp, fn *ssa.Function, a []Value) Value {
+		st := newStore()
+		in.DB = st
+		in.mode["sql-nocheck"] = 1
+		return in.newHandle("DB", &dbHandle{st})
+	}
+	I[vrtPath+".Snapshot"] = func(in *Interp, fn *ssa.Function, a []Value) Value {
+		in.snaps = append(in.snaps, in.snapshotLayer(a[0]))
+		return in.F.Int(int64(len(in.snaps) - 1))
+	}
+	I[vrtPath+".SameStore"] = func(in *Interp, fn *ssa.Function, a []Value) Value {
+		x := int(in.Concretize(a[0].(*sym.Term)))
+		y := int(in.Concretize(a[1].(*sym.Term)))
+		ig := map[string]bool{}
+		sl := a[2].(SliceVal)
+		for i := 0; i < sl.Len; i++ {
+			ig[str(in.sget(sl, i))] = true
+		}
+		return in.sameLayer(in.snaps[x], in.snaps[y], ig)
+	}
 }
